@@ -20,7 +20,7 @@ const (
 )
 
 func init() {
-	register("C20", "Decides the metric tables and the label pairing structurally: (R1) every FamilyGenerator literal handed to metrics.AddMetrics type-asserts the kind the family set is registered for, returns exactly one Metric on every path, and its Value is — for a family named <prefix>_status_<x> whose <x> (case and '_' folded) is the JSON name of a numeric field F of that kind's status type — a conversion of obj.Status.F; for the derived families (created, labels, canary_activated, canary_node_number, canary_paused, rolling_update_paused, rollout_frozen, canary_failed) the value on every path agrees with the defining expression table (1/len(...) exactly under the defining facts, 0 exactly when one of them is false); any other family name is undecided; (R2) in BuildInfoLabels every lookup into obj.Labels uses a key that is an element of `range obj.Labels` unchanged (directly or through a slice that only ever receives such keys and is at most permuted by sort), the value stored at position i is obj.Labels[k] for the same k whose image under one function call is stored at position i of the key slice (same block, same index), both result slices have the length of the collected key slice, the fill loop visits every position, and the collected key slice receives exactly one key per iteration of the range over the label map; (R3) GetLabelsValues pairs the \"namespace\"/\"name\" keys with the object's namespace/name at the same positions; (R4) on every path of every generator LabelKeys and LabelValues are built in lock-step: the same sequence of segments, a segment being result #0 / result #1 of one call of GetLabelsValues or BuildInfoLabels on the asserted object's ObjectMeta, or a constant key paired with one value.", runC20)
+	register("C20", "Decides the metric tables and the label pairing structurally: (R1) every FamilyGenerator literal handed to metrics.AddMetrics type-asserts the kind the family set is registered for, returns exactly one Metric on every path, and its Value is — for a family named <prefix>_status_<x> whose <x> (case and '_' folded) is the JSON name of a numeric field F of that kind's status type — a conversion of obj.Status.F; for the derived families (created, labels, canary_activated, canary_node_number, canary_paused, rolling_update_paused, rollout_frozen, canary_failed) the value on every path agrees with the defining expression table (1/len(...) exactly under the defining facts, 0 exactly when one of them is false); any other family name is undecided; (R2) in BuildInfoLabels every lookup into obj.Labels uses a key that is an element of `range obj.Labels` unchanged (directly or through a slice that only ever receives such keys and is at most permuted by sort), the value stored at position i is obj.Labels[k] for the same k whose image under one function call is stored at position i of the key slice (same block, same index), both result slices have the length of the collected key slice, the fill loop visits every position, and the collected key slice receives exactly one key per iteration of the range over the label map; (R3) GetLabelsValues pairs the \"namespace\"/\"name\" keys with the object's namespace/name at the same positions; (R4) on every path of every generator LabelKeys and LabelValues are built in lock-step: the same sequence of segments, a segment being result #0 / result #1 of one call of GetLabelsValues or BuildInfoLabels on the asserted object's ObjectMeta, or a constant key paired with one value. A generator list may be assembled from the lists of other repository functions; a generator may be the function value an adapter returns around a function literal; a function the generator delegates to, and helpers whose several results (or several returns) feed Value / LabelKeys / LabelValues, are read path by path together with the generator's own path (their facts count, their values are resolved in their own activation).", runC20)
 }
 
 type c20Family struct {
@@ -80,84 +80,140 @@ func c20Families(r *Run) []c20Family {
 			if kind == "" || named == nil || !okLists || len(lists) != 1 {
 				continue
 			}
-			list := lists[0]
-			for _, b := range list.Blocks {
-				for _, in := range b.Instrs {
-					st, isSt := in.(*ssa.Store)
-					if !isSt {
+			// the list function, and the repository functions whose []FamilyGenerator result it (or one of
+			// them) calls for: a list assembled from sub-lists
+			subLists := []*ssa.Function{lists[0]}
+			for i := 0; i < len(subLists) && i < 64; i++ {
+				for _, ci := range callsIn(subLists[i]) {
+					call, isCall := ci.(*ssa.Call)
+					if !isCall {
 						continue
 					}
-					fa, isFA := st.Addr.(*ssa.FieldAddr)
-					if !isFA || fieldName(fa) != "Name" || typeName(fa.X.Type()) != c20PkgKSGen+".FamilyGenerator" {
+					sl, isSl := call.Type().Underlying().(*types.Slice)
+					if !isSl || typeName(sl.Elem()) != c20PkgKSGen+".FamilyGenerator" {
 						continue
 					}
-					fpos := r.Prog.Pos(instrPos(st))
-					name, isC := constString(st.Val)
-					if !isC {
-						r.Undecided("C20.R1", "family with non-constant name", fpos, shortFunc(list), "family name is not a constant")
+					cal := staticCallee(&call.Call)
+					if cal == nil || !r.Prog.IsRuleSite(cal) || len(cal.Blocks) == 0 {
+						if _, isB := call.Call.Value.(*ssa.Builtin); !isB {
+							r.Undecided("C20.R1", "families from a sub-list", r.Prog.Pos(call.Pos()), shortFunc(subLists[i]), "generators come from "+calleeName(&call.Call)+", which is not a repository function")
+						}
 						continue
 					}
-					gfs := fieldStores(fa.X, "GenerateFunc")
-					var gen *ssa.Function
-					if len(gfs) == 1 {
-						switch g := gfs[0].(type) {
-						case *ssa.Function:
-							gen = g
-						case *ssa.MakeClosure:
-							gen, _ = g.Fn.(*ssa.Function)
+					dup := false
+					for _, s := range subLists {
+						if s == cal {
+							dup = true
 						}
 					}
-					if gen == nil || len(gen.Params) != 1 {
-						r.Undecided("C20.R1", "family "+name, fpos, shortFunc(list), "GenerateFunc is not a function literal")
-						continue
+					if !dup {
+						subLists = append(subLists, cal)
 					}
-					out = append(out, c20Family{name: name, gen: gen, list: list, kind: kind, pos: instrPos(st)})
 				}
 			}
-			// families built by a repository helper that returns a FamilyGenerator literal: the name and the
-			// generator are read off the helper's literal, seen with the arguments of this call; when an
-			// argument is the current element of a package-level table of struct literals, one family per entry
-			for _, ci := range callsIn(list) {
-				call, isCall := ci.(*ssa.Call)
-				if !isCall || typeName(call.Type()) != c20PkgKSGen+".FamilyGenerator" {
-					continue
-				}
-				fpos := r.Prog.Pos(call.Pos())
-				H := staticCallee(&call.Call)
-				if H == nil || !r.Prog.IsRuleSite(H) || len(H.Blocks) == 0 || len(H.Params) != len(call.Call.Args) {
-					r.Undecided("C20.R1", "family built by a helper", fpos, shortFunc(list), "the FamilyGenerator comes from "+calleeName(&call.Call))
-					continue
-				}
-				// argument sets: one, or one per table entry
-				argSets := [][]fval{nil}
-				for _, a := range call.Call.Args {
-					entries, isTable := c20TableEntries(a)
-					var next [][]fval
-					for _, set := range argSets {
-						if !isTable {
-							next = append(next, append(append([]fval{}, set...), fval{v: a}))
+			for _, list := range subLists {
+				for _, b := range list.Blocks {
+					for _, in := range b.Instrs {
+						st, isSt := in.(*ssa.Store)
+						if !isSt {
 							continue
 						}
-						for _, e := range entries {
-							next = append(next, append(append([]fval{}, set...), fval{v: e, deref: true}))
+						fa, isFA := st.Addr.(*ssa.FieldAddr)
+						if !isFA || fieldName(fa) != "Name" || typeName(fa.X.Type()) != c20PkgKSGen+".FamilyGenerator" {
+							continue
 						}
+						fpos := r.Prog.Pos(instrPos(st))
+						name, isC := constString(st.Val)
+						if !isC {
+							r.Undecided("C20.R1", "family with non-constant name", fpos, shortFunc(list), "family name is not a constant")
+							continue
+						}
+						gfs := fieldStores(fa.X, "GenerateFunc")
+						var gen *ssa.Function
+						var gF *frames
+						var gfr *frame
+						if len(gfs) == 1 {
+							switch g := gfs[0].(type) {
+							case *ssa.Function:
+								gen = g
+							case *ssa.MakeClosure:
+								gen, _ = g.Fn.(*ssa.Function)
+							case *ssa.Call:
+								// the generator is what a repository function returns (an adapter around the function
+								// literal it is given): the function value it returns, seen with the arguments of this call
+								if H := staticCallee(&g.Call); H != nil && r.Prog.IsRuleSite(H) && len(H.Blocks) > 0 && len(H.Params) == len(g.Call.Args) {
+									gF = newFrames(r.Prog)
+									hfr := gF.top(H)
+									for _, a := range g.Call.Args {
+										hfr.args = append(hfr.args, fval{v: a})
+									}
+									switch rv := singleReturn(H, 0).(type) {
+									case *ssa.Function:
+										gen, gfr = rv, gF.top(rv)
+									case *ssa.MakeClosure:
+										gen, _ = rv.Fn.(*ssa.Function)
+										if gen != nil {
+											gfr = gF.top(gen)
+											for _, bnd := range rv.Bindings {
+												gfr.free = append(gfr.free, fval{v: bnd, fr: hfr})
+											}
+										}
+									}
+								}
+							}
+						}
+						if gen == nil || len(gen.Params) != 1 {
+							r.Undecided("C20.R1", "family "+name, fpos, shortFunc(list), "GenerateFunc is not a function literal")
+							continue
+						}
+						out = append(out, c20Family{name: name, gen: gen, list: list, kind: kind, pos: instrPos(st), F: gF, fr: gfr})
 					}
-					argSets = next
 				}
-				if len(argSets) == 0 {
-					r.Undecided("C20.R1", "family built by "+H.Name(), fpos, shortFunc(list), "the table the families are built from has no entries")
-				}
-				for _, set := range argSets {
-					F := newFrames(r.Prog)
-					hfr := F.top(H)
-					hfr.args = set
-					fam, why := c20FamilyFromHelper(F, H, hfr)
-					if fam == nil {
-						r.Undecided("C20.R1", "family built by "+H.Name(), fpos, shortFunc(list), why)
+				// families built by a repository helper that returns a FamilyGenerator literal: the name and the
+				// generator are read off the helper's literal, seen with the arguments of this call; when an
+				// argument is the current element of a package-level table of struct literals, one family per entry
+				for _, ci := range callsIn(list) {
+					call, isCall := ci.(*ssa.Call)
+					if !isCall || typeName(call.Type()) != c20PkgKSGen+".FamilyGenerator" {
 						continue
 					}
-					fam.list, fam.kind, fam.pos = list, kind, call.Pos()
-					out = append(out, *fam)
+					fpos := r.Prog.Pos(call.Pos())
+					H := staticCallee(&call.Call)
+					if H == nil || !r.Prog.IsRuleSite(H) || len(H.Blocks) == 0 || len(H.Params) != len(call.Call.Args) {
+						r.Undecided("C20.R1", "family built by a helper", fpos, shortFunc(list), "the FamilyGenerator comes from "+calleeName(&call.Call))
+						continue
+					}
+					// argument sets: one, or one per table entry
+					argSets := [][]fval{nil}
+					for _, a := range call.Call.Args {
+						entries, isTable := c20TableEntries(a)
+						var next [][]fval
+						for _, set := range argSets {
+							if !isTable {
+								next = append(next, append(append([]fval{}, set...), fval{v: a}))
+								continue
+							}
+							for _, e := range entries {
+								next = append(next, append(append([]fval{}, set...), fval{v: e, deref: true}))
+							}
+						}
+						argSets = next
+					}
+					if len(argSets) == 0 {
+						r.Undecided("C20.R1", "family built by "+H.Name(), fpos, shortFunc(list), "the table the families are built from has no entries")
+					}
+					for _, set := range argSets {
+						F := newFrames(r.Prog)
+						hfr := F.top(H)
+						hfr.args = set
+						fam, why := c20FamilyFromHelper(F, H, hfr)
+						if fam == nil {
+							r.Undecided("C20.R1", "family built by "+H.Name(), fpos, shortFunc(list), why)
+							continue
+						}
+						fam.list, fam.kind, fam.pos = list, kind, call.Pos()
+						out = append(out, *fam)
+					}
 				}
 			}
 		}
@@ -282,6 +338,9 @@ type c20Gen struct {
 	typ    types.Type
 	F      *frames
 	fr     *frame
+	// cur: the frame in which the plain SSA values handed to path/isPath/isLoadOf are to be read (nil: the
+	// generator's own); set while the facts of an inlined callee are matched
+	cur *frame
 }
 
 func c20Analyse(fn *ssa.Function) (*c20Gen, string) {
@@ -321,6 +380,9 @@ func c20Analyse(fn *ssa.Function) (*c20Gen, string) {
 
 // path returns the field path of a load rooted at the asserted object (nil otherwise).
 func (g *c20Gen) path(v ssa.Value) []string {
+	if g.cur != nil && g.cur != g.fr {
+		return g.pathF(fval{v: v, fr: g.cur})
+	}
 	v = unwrap(v)
 	root, p := accessPathThroughCopies(v)
 	if root != g.obj || len(p) == 0 {
@@ -384,12 +446,10 @@ func (g *c20Gen) isLoadOfF(x fval, want ...string) bool {
 
 // valueF resolves a metric value: phis along the generator's path, conversions, helper parameters,
 // captured function values and calls of repository functions that return one value.
-func (g *c20Gen) valueF(p *Path, x fval) fval {
+func (s *c20Scene) valueF(x fval) fval {
+	g := s.g
 	for i := 0; i < 32; i++ {
-		y := g.F.resolve(x)
-		if y.fr == g.fr {
-			y.v = p.Resolve(y.v)
-		}
+		y := s.resolve(x)
 		switch c := y.v.(type) {
 		case *ssa.Convert:
 			y.v = c.X
@@ -412,13 +472,224 @@ func (g *c20Gen) valueF(p *Path, x fval) fval {
 	return x
 }
 
+// c20Scene is one way through a generator: a path of the generator itself plus one path of every
+// repository function inlined into it — the function it tail-calls for its Family (an adapter that
+// asserts the kind and delegates), and helpers whose several results feed the metric. Values are
+// resolved along the path of the frame they live in; the facts are those of all the parts.
+type c20Part struct {
+	fr *frame
+	p  *Path
+}
+
+type c20Inlined struct {
+	call *ssa.Call
+	fr   *frame // frame of the caller
+	part int
+}
+
+type c20Scene struct {
+	g       *c20Gen
+	parts   []c20Part
+	inlined []c20Inlined
+	tail    int // the part whose return value is the generator's result
+}
+
+func (s *c20Scene) partOf(fr *frame) *c20Part {
+	for i := range s.parts {
+		if s.parts[i].fr == fr {
+			return &s.parts[i]
+		}
+	}
+	return nil
+}
+
+func (s *c20Scene) with(part c20Part, call *ssa.Call, fr *frame) *c20Scene {
+	n := &c20Scene{g: s.g, tail: s.tail}
+	n.parts = append(append([]c20Part{}, s.parts...), part)
+	n.inlined = append(append([]c20Inlined{}, s.inlined...), c20Inlined{call, fr, len(n.parts) - 1})
+	return n
+}
+
+// rets is the frames hook: the results of an inlined call are those returned on its part's path.
+func (s *c20Scene) rets(call *ssa.Call, fr *frame) ([]fval, bool) {
+	for _, in := range s.inlined {
+		if in.call == call && in.fr == fr {
+			part := s.parts[in.part]
+			ret := returnOf(part.p.Blocks[len(part.p.Blocks)-1])
+			if ret == nil {
+				return nil, false
+			}
+			var out []fval
+			for _, rv := range ret.Results {
+				out = append(out, fval{v: rv, fr: part.fr})
+			}
+			return out, true
+		}
+	}
+	return nil, false
+}
+
+func (s *c20Scene) resolve(x fval) fval {
+	s.g.F.rets = s.rets
+	for i := 0; i < 32; i++ {
+		y := s.g.F.resolve(x)
+		if part := s.partOf(y.fr); part != nil {
+			y.v = part.p.Resolve(y.v)
+		}
+		if y == x {
+			return x
+		}
+		x = y
+	}
+	return x
+}
+
+// has: a fact of the given polarity on the path of one of the parts (read in that part's frame).
+func (s *c20Scene) has(pol bool, match func(v ssa.Value, _ string) bool) bool {
+	defer func() { s.g.cur = nil }()
+	for _, part := range s.parts {
+		s.g.cur = part.fr
+		if part.p.Has(pol, match) {
+			return true
+		}
+	}
+	return false
+}
+
+func (s *c20Scene) facts() string {
+	var out []string
+	for _, part := range s.parts {
+		out = append(out, shortFacts(part.p))
+	}
+	return strings.Join(out, " | ")
+}
+
+// result is what the generator returns in this scene.
+func (s *c20Scene) result() fval {
+	last := s.parts[s.tail]
+	ret := returnOf(last.p.Blocks[len(last.p.Blocks)-1])
+	if ret == nil || len(ret.Results) != 1 {
+		return fval{}
+	}
+	return s.resolve(fval{v: ret.Results[0], fr: last.fr})
+}
+
+// inlinable: a call of a repository function with a body that the rule may read path by path.
+func (s *c20Scene) inlinable(call *ssa.Call, fr *frame, skip map[*ssa.Function]bool) (*ssa.Function, *frame) {
+	if _, isB := call.Call.Value.(*ssa.Builtin); isB {
+		return nil, nil
+	}
+	for _, in := range s.inlined {
+		if in.call == call && in.fr == fr {
+			return nil, nil
+		}
+	}
+	fn2, fr2 := s.g.F.callFrame(call, fr)
+	if fn2 == nil || !s.g.F.prog.IsRuleSite(fn2) || skip[fn2] || s.partOf(fr2) != nil {
+		return nil, nil
+	}
+	return fn2, fr2
+}
+
+// expand inlines call (made in frame fr): one scene per path of the callee.
+func (s *c20Scene) expand(r *Run, call *ssa.Call, fr *frame, fn2 *ssa.Function, fr2 *frame) ([]*c20Scene, bool) {
+	paths, _, ok := funcPaths(fn2, 500)
+	r.paths += len(paths)
+	if !ok || len(paths) == 0 {
+		return nil, false
+	}
+	var out []*c20Scene
+	for _, p2 := range paths {
+		out = append(out, s.with(c20Part{fr2, p2}, call, fr))
+	}
+	return out, true
+}
+
+// c20Scenes enumerates the scenes of a generator: its paths, the function it delegates to (tail call)
+// inlined path by path, and — once the metric is located — the repository helpers whose results feed
+// Value / LabelKeys / LabelValues when they cannot be read as one value (several results, or several
+// returns).
+func c20Scenes(r *Run, g *c20Gen, paths []*Path, skip map[*ssa.Function]bool) ([]*c20Scene, string) {
+	var out []*c20Scene
+	var tail func(s *c20Scene, depth int) string
+	tail = func(s *c20Scene, depth int) string {
+		x := s.result()
+		if call, isCall := unwrap(x.v).(*ssa.Call); isCall && depth < 4 {
+			if fn2, fr2 := s.inlinable(call, x.fr, skip); fn2 != nil {
+				next, ok := s.expand(r, call, x.fr, fn2, fr2)
+				if !ok {
+					return "path cap exceeded in " + shortFunc(fn2)
+				}
+				for _, n := range next {
+					n.tail = len(n.parts) - 1
+					if why := tail(n, depth+1); why != "" {
+						return why
+					}
+				}
+				return ""
+			}
+		}
+		out = append(out, s)
+		return ""
+	}
+	for _, p := range paths {
+		if why := tail(&c20Scene{g: g, parts: []c20Part{{g.fr, p}}}, 0); why != "" {
+			return nil, why
+		}
+		if len(out) > 4000 {
+			return nil, "too many combinations of paths"
+		}
+	}
+	return out, ""
+}
+
+// feeders finds, below the value x, a call that must be inlined to read it: an Extract of a repository
+// call with several results, or a repository call without a single returned value.
+func (s *c20Scene) feeder(r *Run, x fval, skip map[*ssa.Function]bool, depth int) (*ssa.Call, *frame) {
+	if depth > 8 {
+		return nil, nil
+	}
+	x = s.resolve(x)
+	switch y := x.v.(type) {
+	case *ssa.Convert:
+		return s.feeder(r, fval{v: y.X, fr: x.fr}, skip, depth+1)
+	case *ssa.ChangeType:
+		return s.feeder(r, fval{v: y.X, fr: x.fr}, skip, depth+1)
+	case *ssa.Extract:
+		if c, ok := y.Tuple.(*ssa.Call); ok {
+			if fn2, _ := s.inlinable(c, x.fr, skip); fn2 != nil {
+				return c, x.fr
+			}
+		}
+	case *ssa.Call:
+		if _, ok := isBuiltinCall(y, "append"); ok {
+			for _, a := range y.Call.Args {
+				if c, fr := s.feeder(r, fval{v: a, fr: x.fr}, skip, depth+1); c != nil {
+					return c, fr
+				}
+			}
+			return nil, nil
+		}
+		if fn2, _ := s.inlinable(y, x.fr, skip); fn2 != nil && y.Call.Signature().Results().Len() == 1 && singleReturn(fn2, 0) == nil {
+			if _, isInd := c20Indicator(r, fn2); !isInd {
+				return y, x.fr
+			}
+		}
+	}
+	return nil, nil
+}
+
 // c20Metric locates the single Metric of the Family returned on a path: the values stored into its
 // Value, LabelKeys and LabelValues fields (in the generator, or in a repository helper that builds the Family).
 type c20Metric struct{ value, keys, values fval }
 
-func c20MetricOf(g *c20Gen, p *Path, ret *ssa.Return) (*c20Metric, string) {
-	x := fval{v: p.Resolve(ret.Results[0]), fr: g.fr}
-	var builder *ssa.Function // helper in which the Family is built (nil: the generator itself)
+func c20MetricOf(s *c20Scene) (*c20Metric, string) {
+	g := s.g
+	x := s.result()
+	if x.v == nil {
+		return nil, "unexpected result count"
+	}
+	var builder *ssa.Function // helper in which the Family is built and that was not inlined (nil: a part of the scene)
 	for i := 0; i < 4; i++ {
 		call, isCall := unwrap(x.v).(*ssa.Call)
 		if !isCall {
@@ -472,7 +743,7 @@ func c20MetricOf(g *c20Gen, p *Path, ret *ssa.Return) (*c20Metric, string) {
 	}
 	for _, st := range []*ssa.Store{sv, sk, sl} {
 		if builder == nil {
-			if !p.Contains(st.Block()) {
+			if part := s.partOf(x.fr); part == nil || !part.p.Contains(st.Block()) {
 				return nil, "a field of the metric is not stored on this path"
 			}
 			continue
@@ -642,29 +913,59 @@ func c20Family1(r *Run, f c20Family, derived map[string]c20Derived, build, getLV
 	valOK, pairOK := true, true
 	valWhy, pairWhy := "", ""
 	nPaths := 0
-	for _, p := range paths {
-		ret := returnOf(p.Blocks[len(p.Blocks)-1])
-		if len(ret.Results) != 1 {
+	skip := map[*ssa.Function]bool{build: true, getLV: true}
+	scenes, whyS := c20Scenes(r, g, paths, skip)
+	if scenes == nil {
+		r.Undecided("C20.R1", construct, pos, sfn, whyS)
+		return
+	}
+	defer func() { g.F.rets = nil }()
+	for qi := 0; qi < len(scenes); qi++ {
+		sc := scenes[qi]
+		if len(scenes) > 4000 {
+			valOK, valWhy = false, "undecided: too many combinations of paths"
+			break
+		}
+		p := sc.parts[0].p
+		res := sc.result()
+		if res.v == nil {
 			valOK, valWhy = false, "unexpected result count"
 			continue
 		}
-		if isNilConst(p.Resolve(ret.Results[0])) {
+		if isNilConst(res.v) {
 			// no series: only when the object is not of the asserted kind
 			if g.okFlag == nil || !p.Has(false, func(v ssa.Value, _ string) bool { return v == g.okFlag }) {
-				valOK, valWhy = false, "returns no family on path ["+shortFacts(p)+"]"
+				valOK, valWhy = false, "returns no family on path ["+sc.facts()+"]"
 			}
 			continue
 		}
-		m, why := c20MetricOf(g, p, ret)
+		m, why := c20MetricOf(sc)
 		if m == nil {
 			valOK, valWhy = false, "undecided: "+why
 			pairOK, pairWhy = false, "undecided: "+why
 			continue
 		}
+		// helpers whose results feed the metric and must be read path by path
+		inl := false
+		for _, root := range []fval{m.value, m.keys, m.values} {
+			if call, cfr := sc.feeder(r, root, skip, 0); call != nil && len(sc.parts) < 6 {
+				if fn2, fr2 := sc.inlinable(call, cfr, skip); fn2 != nil {
+					if next, okE := sc.expand(r, call, cfr, fn2, fr2); okE {
+						scenes = append(scenes, next...)
+						inl = true
+						break
+					}
+				}
+			}
+		}
+		if inl {
+			continue
+		}
 		nPaths++
-		valF := g.valueF(p, m.value)
+		valF := sc.valueF(m.value)
 		val := valF.v
-		inGen := valF.fr == g.fr
+		inGen := sc.partOf(valF.fr) != nil
+		g.cur = valF.fr
 		switch {
 		case field != "":
 			if !g.isLoadOfF(valF, "Status", field) {
@@ -687,15 +988,16 @@ func c20Family1(r *Run, f c20Family, derived map[string]c20Derived, build, getLV
 			// the value, possibly as a 0/1 indicator of a boolean (a helper that returns 1 exactly for true):
 			// one case per outcome, each with the facts the outcome adds to the path
 			type vcase struct {
-				val   ssa.Value
-				extra []Fact
+				val     ssa.Value
+				extra   []Fact
+				extraFr *frame
 			}
 			cases := []vcase{{val: val}}
 			if call, isCall := val.(*ssa.Call); isCall {
 				if bi, okI := c20Indicator(r, staticCallee(&call.Call)); okI {
-					bv := g.F.resolve(fval{v: call.Call.Args[bi], fr: valF.fr})
-					if bv.fr == g.fr {
-						b := p.Resolve(bv.v)
+					bv := sc.resolve(fval{v: call.Call.Args[bi], fr: valF.fr})
+					if bpart := sc.partOf(bv.fr); bpart != nil {
+						b := bv.v
 						one := ssa.NewConst(constant.MakeInt64(1), types.Typ[types.Float64])
 						zero := ssa.NewConst(constant.MakeInt64(0), types.Typ[types.Float64])
 						if cb, isC := constBool(b); isC {
@@ -705,17 +1007,19 @@ func c20Family1(r *Run, f c20Family, derived map[string]c20Derived, build, getLV
 								cases = []vcase{{val: zero}}
 							}
 						} else {
-							k := newKeyer(fn)
-							cases = []vcase{{val: one, extra: k.normCond(b, true)}, {val: zero, extra: k.normCond(b, false)}}
+							k := newKeyer(bpart.fr.fn)
+							cases = []vcase{{val: one, extra: k.normCond(b, true), extraFr: bv.fr}, {val: zero, extra: k.normCond(b, false), extraFr: bv.fr}}
 						}
 					}
 				}
 			}
 			for _, vc := range cases {
 				has := func(pol bool, a c20Atom) bool {
-					if p.Has(pol, func(v ssa.Value, _ string) bool { return a.match(g, v) }) {
+					if sc.has(pol, func(v ssa.Value, _ string) bool { return a.match(g, v) }) {
 						return true
 					}
+					g.cur = vc.extraFr
+					defer func() { g.cur = nil }()
 					for _, f := range vc.extra {
 						if f.Pol == pol && a.match(g, f.V) {
 							return true
@@ -735,28 +1039,34 @@ func c20Family1(r *Run, f c20Family, derived map[string]c20Derived, build, getLV
 					}
 				}
 				zero, isNum := constNum(vc.val)
+				g.cur = valF.fr
+				isOn := der.on(g, vc.val)
+				g.cur = nil
 				switch {
-				case der.on(g, vc.val):
+				case isOn:
 					if !allTrue {
 						valOK, valWhy = false, fmt.Sprintf("Value is %s on a path that does not establish %s", der.onDesc, strings.Join(missing, " ∧ "))
 					}
 				case isNum && zero == 0:
 					if !someFalse {
-						valOK, valWhy = false, "Value is 0 on a path where no defining fact is false: ["+shortFacts(p)+"]"
+						valOK, valWhy = false, "Value is 0 on a path where no defining fact is false: ["+sc.facts()+"]"
 					}
 				default:
+					g.cur = valF.fr
 					valOK, valWhy = false, fmt.Sprintf("Value is %s, neither %s nor 0", c20Describe(g, vc.val), der.onDesc)
+					g.cur = nil
 				}
 			}
 		}
+		g.cur = nil
 		// R4: lock-step construction of keys and values
-		ks, ok1 := c20Seq(g.F, g.fr, p, m.keys, 0)
-		vs, ok2 := c20Seq(g.F, g.fr, p, m.values, 0)
+		ks, ok1 := c20Seq(sc, nil, m.keys, 0)
+		vs, ok2 := c20Seq(sc, nil, m.values, 0)
 		if !ok1 || !ok2 {
 			pairOK, pairWhy = false, "undecided: LabelKeys/LabelValues are not built from pair-function results, appends and literals"
 			continue
 		}
-		if why := c20PairSeq(r, g, p, ks, vs, build, getLV); why != "" {
+		if why := c20PairSeq(r, sc, ks, vs, build, getLV); why != "" {
 			pairOK, pairWhy = false, why
 		}
 		if special == "labels" {
@@ -852,14 +1162,13 @@ type c20Elem struct {
 
 // c20Seq reads a label slice as a sequence of segments; values are followed through helper
 // parameters (F, fr), phis are resolved along the path p of the top frame.
-func c20Seq(F *frames, top *frame, p *Path, x fval, depth int) ([]c20Elem, bool) {
+func c20Seq(sc *c20Scene, p *Path, x fval, depth int) ([]c20Elem, bool) {
 	if depth > 12 {
 		return nil, false
 	}
-	if F != nil {
-		x = F.resolve(x)
-	}
-	if x.fr == top {
+	if sc != nil {
+		x = sc.resolve(x)
+	} else if p != nil {
 		x.v = p.Resolve(x.v)
 	}
 	switch y := x.v.(type) {
@@ -885,14 +1194,14 @@ func c20Seq(F *frames, top *frame, p *Path, x fval, depth int) ([]c20Elem, bool)
 		}
 	case *ssa.Call:
 		if _, ok := isBuiltinCall(y, "append"); ok {
-			a, ok1 := c20Seq(F, top, p, fval{v: y.Call.Args[0], fr: x.fr}, depth+1)
+			a, ok1 := c20Seq(sc, p, fval{v: y.Call.Args[0], fr: x.fr}, depth+1)
 			if !ok1 {
 				return nil, false
 			}
 			if len(y.Call.Args) < 2 {
 				return a, true
 			}
-			b, ok2 := c20Seq(F, top, p, fval{v: y.Call.Args[1], fr: x.fr}, depth+1)
+			b, ok2 := c20Seq(sc, p, fval{v: y.Call.Args[1], fr: x.fr}, depth+1)
 			if !ok2 {
 				return nil, false
 			}
@@ -902,7 +1211,8 @@ func c20Seq(F *frames, top *frame, p *Path, x fval, depth int) ([]c20Elem, bool)
 	return nil, false
 }
 
-func c20PairSeq(r *Run, g *c20Gen, p *Path, ks, vs []c20Elem, build, getLV *ssa.Function) string {
+func c20PairSeq(r *Run, sc *c20Scene, ks, vs []c20Elem, build, getLV *ssa.Function) string {
+	g := sc.g
 	if len(ks) != len(vs) {
 		return fmt.Sprintf("LabelKeys has %d segments, LabelValues %d", len(ks), len(vs))
 	}
@@ -916,7 +1226,7 @@ func c20PairSeq(r *Run, g *c20Gen, p *Path, ks, vs []c20Elem, build, getLV *ssa.
 			if !isC {
 				return fmt.Sprintf("key at segment %d is not a constant", i)
 			}
-			if why := c20AuxLabel(r, g, p, key, v); why != "" {
+			if why := c20AuxLabel(r, sc, key, v); why != "" {
 				return why
 			}
 			continue
@@ -941,22 +1251,20 @@ func c20PairSeq(r *Run, g *c20Gen, p *Path, ks, vs []c20Elem, build, getLV *ssa.
 // c20AuxLabel: the value paired with an auxiliary constant label key reports the status field the key
 // stands for (table): "replicaset" ← Status.Canary.ReplicaSet while a canary is recorded, "" otherwise;
 // "paused_reason" ← Reason of the Canary-Paused condition of the object's status.
-func c20AuxLabel(r *Run, g *c20Gen, p *Path, key string, v c20Elem) string {
-	x := g.F.resolve(fval{v: v.scalar, fr: v.fr})
-	if x.fr == g.fr {
-		x.v = p.Resolve(x.v)
-	}
+func c20AuxLabel(r *Run, sc *c20Scene, key string, v c20Elem) string {
+	g := sc.g
+	x := sc.resolve(fval{v: v.scalar, fr: v.fr})
 	switch key {
 	case "replicaset":
 		isCanaryNil := func(cv ssa.Value, _ string) bool {
 			return isNilCompareOf(cv, func(y ssa.Value) bool { return g.isLoadOf(y, "Status", "Canary") })
 		}
 		switch {
-		case p.Has(false, isCanaryNil):
+		case sc.has(false, isCanaryNil):
 			if !g.isLoadOfF(x, "Status", "Canary", "ReplicaSet") {
 				return "label \"replicaset\" is " + x.v.String() + " on a path where status.canary is set: it must report status.canary.replicaSet"
 			}
-		case p.Has(true, isCanaryNil):
+		case sc.has(true, isCanaryNil):
 			if s, isC := constString(x.v); !isC || s != "" {
 				return "label \"replicaset\" is not empty on a path where status.canary is nil"
 			}
@@ -974,7 +1282,10 @@ func c20AuxLabel(r *Run, g *c20Gen, p *Path, key string, v c20Elem) string {
 			return "label \"paused_reason\" is not the Reason of a status condition"
 		}
 		cs, isC := constString(call.Call.Args[1])
-		if !isC || cs != want || !g.isPath(call.Call.Args[0], "Status") || !isPtrToNamed(call.Type(), pkgAPI, "ExtendedDaemonSetCondition") {
+		g.cur = x.fr
+		ofStatus := g.isPath(call.Call.Args[0], "Status")
+		g.cur = nil
+		if !isC || cs != want || !ofStatus || !isPtrToNamed(call.Type(), pkgAPI, "ExtendedDaemonSetCondition") {
 			return "label \"paused_reason\" is not the Reason of the object's Canary-Paused condition"
 		}
 		return ""
@@ -1395,7 +1706,27 @@ func (c *c20CondReader) index(fn *ssa.Function) bool {
 		matched := c20Matches(p, k, status, t)
 		if cv, isC := constInt(res); isC {
 			if cv >= 0 {
-				okC, whyC = false, "returns a constant index"
+				// a loop counter that is this constant on this path (first iteration of a counting loop)
+				// (the returned value must BE the counter of the matching fact, not merely equal it here)
+				good := false
+				v := ret.Results[0]
+				for i := 0; i < 32 && !good; i++ {
+					for _, m := range matched {
+						if _, litC := m.(*ssa.Const); !litC && m == v {
+							good = true
+						}
+					}
+					w := p.ResolveOnce(v)
+					if w == v {
+						break
+					}
+					v = w
+				}
+				if good {
+					nIdx++
+				} else {
+					okC, whyC = false, "returns a constant index"
+				}
 			} else if len(matched) > 0 {
 				okC, whyC = false, "reports not-found on a path where an element's Type equals t"
 			}
@@ -1437,8 +1768,8 @@ func c20GetLabelsValues(r *Run, fn *ssa.Function) {
 			r.Undecided("C20.R3", construct, pos, shortFunc(fn), "unexpected result count")
 			continue
 		}
-		ks, ok1 := c20Seq(nil, nil, p, fval{v: ret.Results[0]}, 0)
-		vs, ok2 := c20Seq(nil, nil, p, fval{v: ret.Results[1]}, 0)
+		ks, ok1 := c20Seq(nil, p, fval{v: ret.Results[0]}, 0)
+		vs, ok2 := c20Seq(nil, p, fval{v: ret.Results[1]}, 0)
 		if !ok1 || !ok2 {
 			r.Undecided("C20.R3", construct, r.Prog.Pos(instrPos(ret)), shortFunc(fn), "results are not slice literals")
 			continue
